@@ -311,3 +311,32 @@ fn make_digits(a: &impl BigInteger, w: usize, num_bits: usize) -> impl Iterator<
         digit
     })
 }
+
+/// Verification hooks (additive; compiled only with `--cfg arkworks_rs_algebra_verif`):
+/// public wrappers around the private MSM variants, which the public API selects
+/// between by `NEGATION_IS_CHEAP` and therefore never reaches both for one group.
+#[cfg(arkworks_rs_algebra_verif)]
+pub mod verif_hooks {
+    use super::*;
+
+    /// The plain-bucket method (used when negation is not cheap).
+    pub fn msm_bigint_plain<V: VariableBaseMSM>(
+        bases: &[V::MulBase],
+        bigints: &[<V::ScalarField as PrimeField>::BigInt],
+    ) -> V {
+        super::msm_bigint::<V>(bases, bigints)
+    }
+
+    /// The signed-digit (wNAF bucket) method (used when negation is cheap).
+    pub fn msm_bigint_signed<V: VariableBaseMSM>(
+        bases: &[V::MulBase],
+        bigints: &[<V::ScalarField as PrimeField>::BigInt],
+    ) -> V {
+        super::msm_bigint_wnaf::<V>(bases, bigints)
+    }
+
+    /// The signed radix-2^w digits of `a`.
+    pub fn make_digits_vec(a: &impl BigInteger, w: usize, num_bits: usize) -> Vec<i64> {
+        super::make_digits(a, w, num_bits).collect()
+    }
+}
